@@ -37,7 +37,11 @@ package unserializers
 //@   ensures [C04:unserialize:complete] result1 == nil ==> result0.Metadata != nil && result0.NodeList != nil
 
 //@ func CDX.componentToNodeList
-//@   props C04
+//@   props C04, C05
+//@   ensures [C05:cdx:counter] result1 == nil ==> *cc >= old(*cc) + 1 + (component.Components != nil ? len(*component.Components) : 0)
+//@   ensures [C05:cdx:counterMonotone] *cc >= old(*cc)
+//@   ensures [C05:cdx:counterStrict] result1 == nil ==> *cc >= old(*cc) + 1
+//@   invariant L0: [C05:inv] *cc >= old(*cc) + 1 + _i
 //@   requires component != nil && cc != nil
 //@   assigns cc.*
 //@   owns
@@ -98,8 +102,10 @@ package unserializers
 //@ pred cdxNodeOf(m *sbom.Node, c *cyclonedx.Component) = (c.BOMRef != "" ==> m.Id == c.BOMRef) && m.Name == c.Name && m.Version == c.Version && m.Copyright == c.Copyright && m.Description == c.Description && m.Identifiers != nil && (c.PackageURL != "" ==> (1 in m.Identifiers) && m.Identifiers[1] == c.PackageURL) && ((m.Type == 1) <==> (CDX.componentTypeToPurpose(nil, c.Type) == 12)) && (m.Type == 0 || m.Type == 1)
 
 //@ func CDX.componentToNode
-//@   props C02
+//@   props C02, C05
 //@   inline
+//@   ensures [C05:cdx:counterStep] *cc == old(*cc) + 1
+//@   ensures [C05:cdx:idNonEmpty] result0 != nil ==> result0.Id != ""
 //@   requires [C02:pre] c != nil && cc != nil
 //@   ensures [C02:cdx:node:scalars] result1 == nil && result0 != nil && cdxNodeOf(result0, c)
 //@   invariant L0: [C02:inv] node != nil && fresh(node) && node.Identifiers != nil && node.Hashes != nil && node.Identifiers != node.Hashes
